@@ -50,16 +50,16 @@ M = {
     'c06-no-compile-guard': ('C06', [(SRC + 'context.py', "            compile('class _:\\n' + self.__build_function('_', code), '<cell>', 'exec')", "            pass")],
                              'a formula nested >100 levels is emitted although Python cannot compile it'),
     'c06-row-zero': ('C06', [(SRC + 'handle_cell.py', "            if int(cell.row) < 1:", "            if int(cell.row) < 0:")], 'A0 accepted: method name _0_0_-1'),
-    'c06-constant-str': ('C06', [(SRC + 'translators/cell_translator.py', "code = repr(cell.value) if cell.value is not None else 'self.EmptyCell()'",
-                                  "code = (repr(cell.value) if not isinstance(cell.value, str) or '\\\\' not in cell.value else '\"' + cell.value + '\"') if cell.value is not None else 'self.EmptyCell()'")],
+    'c06-constant-str': ('C06', [(SRC + 'translators/cell_translator.py', "                code = repr(cell.value)\n",
+                                  "                code = repr(cell.value) if not isinstance(cell.value, str) or '\\\\' not in cell.value else '\"' + cell.value + '\"'\n")],
                          'text constants containing a backslash are emitted between plain double quotes'),
     'c11-bool-numeric': ('C11', [(CTX, "            if type(i) in [float, int] or (with_string_digits", "            if isinstance(i, (float, int)) or (with_string_digits")],
                          'numeric filter by isinstance: TRUE/FALSE and blank objects inside areas are folded'),
     'c11-countblank-zero': ('C11', [(CTX, 'empty = [elem for elem in flatten_list if elem is None or elem == ""]', 'empty = [elem for elem in flatten_list if elem is None or elem == "" or elem == 0 and elem is not False]')],
                             'COUNTBLANK also counts zeros'),
-    'c11-flatten-drops-nested-tail': ('C11', [(CTX, "            if isinstance(i, list):\n                result = result + self._flatten_list(i)", "            if isinstance(i, list):\n                result = result + self._flatten_list(i[:6])")],
+    'c11-flatten-drops-nested-tail': ('C11', [(CTX, "                result.extend(self._flatten_list(i))", "                result.extend(self._flatten_list(i[:6]))")],
                                       'areas with more than 6 rows lose the rest when flattened'),
-    'c11-and-any': ('C11', [(CTX, "    def _and(self, flatten_list: List):\n        return all(flatten_list)", "    def _and(self, flatten_list: List):\n        return all(flatten_list[:2])")],
+    'c11-and-any': ('C11', [(CTX, "        return all(item for item in flatten_list if not isinstance(item, self.EmptyCell))", "        return all(item for item in flatten_list[:2] if not isinstance(item, self.EmptyCell))")],
                     'AND looks at its first two arguments only'),
     'c11-text-digits-numeric': ('C11', [(CTX, "def _only_numeric_list(flatten_list: List, with_string_digits: bool = False):", "def _only_numeric_list(flatten_list: List, with_string_digits: bool = True):")],
                                 'numeric-looking text inside areas is folded as if it were a number'),
@@ -98,7 +98,7 @@ M = {
                            '"=3" is taken as the plain text =3'),
     'c12-countifs-falsy': ('C12', [(CTX, "        return len([i for i in range(len(count_range)) if accepted[i] and count_condition(count_range[i])])", "        return len([i for i in range(len(count_range)) if accepted[i] and count_condition(count_range[i]) and count_range[i]])")],
                            'COUNTIFS drops rows whose cell is 0 (the repaired defect)'),
-    'c12-sumif-target-shift': ('C12', [(SRC + 'excel.py', "return Cell(base.title, base.column + (second.column - first.column), base.row + (second.row - first.row)", "return Cell(base.title, base.column + (second.column - first.column), base.row + (second.row - first.row) - (1 if second.row - first.row > 5 else 0)")],
+    'c12-sumif-target-shift': ('C12', [(SRC + 'excel.py', "                    base.row + abs(second.row - first.row) if first.row", "                    base.row + abs(second.row - first.row) - (1 if abs(second.row - first.row) > 5 else 0) if first.row")],
                                'the derived SUMIF target range is one row short for criteria ranges taller than 6'),
     'c12-second-pair-ignored': ('C12', [(CTX, "        for [_range, criteria] in range_and_criteria_zip:\n            for i in range(len(_range)):\n                if not criteria(_range[i]):\n                    sum_range[i] = None", "        for [_range, criteria] in range_and_criteria_zip[:2]:\n            for i in range(len(_range)):\n                if not criteria(_range[i]):\n                    sum_range[i] = None")],
                                 'SUMIFS ignores the third criteria pair'),
@@ -128,7 +128,7 @@ M = {
                                         '=!A1 and =\'\'!A1 read the own sheet again (the repaired defect)'),
     'c18-text-cell-with-equals-as-formula': ('C18', [(SRC + 'translators/cell_translator.py', " and not isinstance(cell.value, TextCellValue):", ":")],
                                              'a cell stored as text whose text starts with = is translated as a formula again (the repaired defect)'),
-    'c04-none-override-leaks': ('C04', [(CTX, "return self.EmptyCell() if value is None else value", "return value"), (ABS, "return self.EmptyCell() if value is None else value", "return value")],
+    'c04-none-override-leaks': ('C04', [(CTX, "            if value is None or (type(value)", "            if False and value is None or (type(value)"), (ABS, "            if value is None or (type(value)", "            if False and value is None or (type(value)")],
                                 'an override without a value hands None to formulas again (the repaired defect)'),
     'c12-date-cell-vs-serial-criterion': ('C12', [(CTX, "                elif isinstance(cell, datetime.datetime):\n                    # the text form of a date joined by & is its serial number", "                elif False:\n                    # the text form of a date joined by & is its serial number"),
                                                   (ABS, "                elif isinstance(cell, datetime.datetime):\n                    # the text form of a date joined by & is its serial number", "                elif False:\n                    # the text form of a date joined by & is its serial number")],
@@ -141,7 +141,7 @@ M = {
     'c03-area-cells-not-registered': ('C03', [(SRC + 'translators/matrix_of_cell_identifiers_token_translator.py', "CellTranslator.translate(j, excel, context) for j in i",
                                                "(CellTranslator.translate(j, excel, context) if excel.fill_cell(j).column < 3 else context._get_cell_with_cell_preprocessor(j.uid)) for j in i")],
                                       'cells of areas right of column C are referenced without being translated: missing from entry-point slices'),
-    'c04-merge-order': ('C04', [(SRC + 'utilities/executor.py', "self._cells = {**self._cells, **{cell.uid: cell for cell in cells}}", "self._cells = {**{cell.uid: cell for cell in cells}, **self._cells}")],
+    'c04-merge-order': ('C04', [(SRC + 'utilities/executor.py', "self._cells = {**self._cells, **{cell.uid: copy(cell) for cell in cells}}", "self._cells = {**{cell.uid: copy(cell) for cell in cells}, **self._cells}")],
                         'the first write to a cell wins'),
     'c05-accept-tail': ('C05', [(SRC + 'ast_builder.py', "        if token is None or unparsed_tokens:", "        if token is None or len(unparsed_tokens) > 1:")], 'one unparsed trailing token is tolerated'),
     'c07-literal-hand-quoted': ('C07', [(SRC + 'tokens/regexp_tokens/__init__.py', "            real_value = repr(self.value[1])", "            real_value = \"'\" + self.value[1].replace(\"'\", \"\\\\'\") + \"'\"")],
@@ -150,7 +150,7 @@ M = {
                              'changing the entry cell does not invalidate the cached translation (the repaired defect)'),
     'c10-le-on-equal-texts': ('C10', [(CTX, "            case '<=':\n                return left_operand <= right_operand", "            case '<=':\n                return left_operand < right_operand or (left_operand == right_operand and not isinstance(left_operand, str))")],
                               '<= is false for two equal texts'),
-    'c14-vlookup-lt': ('C14', [(CTX, "                if row[0] <= lookup_value:", "                if row[0] < lookup_value:")], 'approximate VLOOKUP takes keys strictly below the value'),
+    'c14-vlookup-lt': ('C14', [(CTX, "                if key <= wanted:", "                if key < wanted:")], 'approximate VLOOKUP takes keys strictly below the value'),
     'c15-weekend-sunday-only': ('C15', [(CTX, "if start.weekday() not in [5, 6] and start not in additional_days:", "if start.weekday() not in [6] and start not in additional_days:")], 'Saturdays count as working days'),
     'c15-date-month-clamp': ('C15', [(CTX, "        result_date += relativedelta(months=month - 1)", "        result_date += relativedelta(months=min(month, 24) - 1)")], 'DATE clamps months above 24'),
     'c16-half-even': ('C16', [(CTX, "        return self._decimal_round(number, num_digits, ROUND_HALF_UP)", "        return self._decimal_round(number, num_digits, 'ROUND_HALF_EVEN')")], 'ROUND rounds ties to even'),
